@@ -11,6 +11,13 @@ import vlib
 LEVEL = "exploration"
 
 
+def der_cls(cls):
+    """overlap/<tag family>/vlen-<n>/<what>@<off> -> family of the placement (one defect = one key family)"""
+    parts = cls.split("/")
+    what = parts[-1].split("@")[0] if parts else cls
+    return "%s:%s" % (what, parts[2] if len(parts) > 2 else "")
+
+
 def run(ctx):
     ev = ctx.ev
     drv = vlib.harness("drv_belt", ["drv_belt.c", "drv_belt_steps.c"], "asan", libs=["-lm"])
@@ -94,6 +101,39 @@ def run(ctx):
         ev.cov["functions"].append("bashHash")
     except (FileNotFoundError, vlib.BuildError) as e:
         ev.cov["bash_overlap"] = "not available: %s" % str(e)[:100]
+    # ---- DER: encoders / decoders whose header lets val (and len) overlap der, through the codec driver
+    try:
+        cdrv = vlib.harness("drv_codec", ["drv_codec.c"], "asan")
+        cout = ctx.path("der_overlap.ndjson")
+        rc, _, err = vlib.run_harness(cdrv, ["record", "quick" if ctx.quick else "thorough", "overlap"], out_path=cout,
+                                      env={"VERIF_SEED": ctx.seed}, timeout=900)
+        crows = [json.loads(l) for l in open(cout) if l.strip().endswith("}")]
+        if rc != 0:
+            ctx.violation("overlap-crash:der", "DER overlap driver stopped (rc=%d): %s" % (rc, err[-1200:]), err[-4000:])
+        for x in crows:
+            if x.get("fault"):
+                ctx.violation("der:%s:%s" % (x["op"], der_cls(x["cls"])), "%s: fault %s (assertion / sanitizer / signal) with val or len overlapping der: %s"
+                              % (x["op"], x["fault"], x["cls"]), {"line": x})
+        crows = [x for x in crows if not x.get("fault")]
+        nshard = 8 if len(crows) > 4000 else 1
+        res = vlib.parallel([(lambda sh=sh: vlib.validate_lines(ctx, "Trace_Codec", sh, timeout=2500, workers=2)) for sh in vlib.shard(crows, nshard)], n=nshard)
+        nd = 0
+        for sh, (nv, badv, rv) in zip(vlib.shard(crows, nshard), res):
+            if nv < len(sh):
+                ctx.note_inconclusive("Trace_Codec evaluated %d of %d DER overlap lines (rc=%s)" % (nv, len(sh), rv.rc))
+            nd += nv
+            for i in badv:
+                x = sh[i - 1]
+                ctx.violation("der:%s:%s" % (x["op"], der_cls(x["cls"])), "%s with val/len overlapping der differs from the disjoint-buffer result (%s)" % (x["op"], x["cls"]), {"line": x})
+        ev.cov["evaluations"] += nd
+        ev.cov["traces_validated_against_impl"] += nd
+        ev.cov["der_overlap_lines"] = nd
+        ev.cov["distinct_nontrivial"] += len(set((x["op"], x["cls"]) for x in crows))
+        ev.cov["functions"] += sorted(set(x["op"] for x in crows))
+        if crows:
+            ev.sample({k: (v if not isinstance(v, list) or len(v) < 40 else v[:40] + ["..."]) for k, v in crows[len(crows) // 3].items()})
+    except (FileNotFoundError, vlib.BuildError) as e:
+        ev.cov["der_overlap"] = "not available: %s" % str(e)[:100]
     # binding self-test
     mut = []
     for row in [x for x in rows if x.get("rc") == 0 and x.get("out")][:4000:500]:
@@ -104,5 +144,5 @@ def run(ctx):
         ev.cov["selftest_rejected"] = len(bad2)
         if n2 == len(mut) and len(bad2) != len(mut):
             ctx.note_inconclusive("binding self-test failed")
-    ev.assume("ECB one-shots: the header makes no overlap statement (not driven); brng one-shots and DER encoders are not yet driven")
+    ev.assume("ECB one-shots and brng: the headers make no overlap statement (not driven)")
     ev.assume("KWP wrap with src overlapping header is rejected by the implementation with ERR_BAD_INPUT and is treated as forbidden")
